@@ -31,7 +31,7 @@ NESTS = ["single", "inner", "incatch"]
 RAISES = [None, 0, 2]
 ORIGINS = ["error", "sub", "vm", "native"]
 FILTERS = [None, "Error", "MyErr", "OtherErr"]
-EXITS = ["complete", "break", "continue", "return"]
+EXITS = ["complete", "break", "continue", "return", "return_raises"]  # return_raises: the error comes out of the expression of a `return` inside the try
 
 
 def origin_stmt(o):
@@ -53,7 +53,7 @@ def err_print(tag, var="e"):
 def scenario(pl, nlocals, prefix, loop, nest, rdepth, origin, filt, exitp, late):
     if exitp in ("break", "continue") and loop == "none":
         return None
-    if pl == "module" and exitp == "return":
+    if pl == "module" and exitp in ("return", "return_raises"):
         return None
     header = [["class", "MyErr", "Error", []], ["class", "OtherErr", "Error", []], ["let", "ch", ["chan", N(4)]],
               ["fn", "thrower", ["d", "k"], [["if", ["bin", "==", V("d"), N(0)], [["if", ["bin", "==", V("k"), N(0)], [origin_stmt("error")], None],
@@ -86,6 +86,8 @@ def scenario(pl, nlocals, prefix, loop, nest, rdepth, origin, filt, exitp, late)
         action.append(["continue"])
     elif exitp == "return":
         action.append(["return", S("ret")])
+    elif exitp == "return_raises":
+        action.append(["return", ["list", [S("ret"), call("thrower", N(1), N(kcode))]]])
     else:
         action.append(["expr", ["assign", "r", ["bin", "+", V("r"), S("+done")]]])
     handler = [["expr", ["assign", "r", ["bin", "+", V("r"), S("+caught")]]], err_print("h")]
@@ -147,13 +149,13 @@ def multi_scenario(pl, clauses, origin, loop, exitp, raise_in_handler, nested_in
     """several catch clauses on one try: the first matching one runs, the others leave no trace on the stack (locals declared after the try read their own values)"""
     if exitp in ("break", "continue") and loop == "none":
         return None
-    if pl == "module" and exitp == "return":
+    if pl == "module" and exitp in ("return", "return_raises"):
         return None
     header = [["class", "MyErr", "Error", []], ["class", "OtherErr", "Error", []], ["class", "ThirdErr", "Error", []]]
     params = {"module": [], "fn0": [], "fn3": ["p0", "p1", "p2"], "method1": ["p0"], "callback": ["p0"]}[pl]
     body = [["let", "l0", N(10)], ["let", "r", S("none")]]
     act = [["let", "t0", S("in")], origin_stmt(origin) if origin != "none" else ["let", "quiet", N(1)]]
-    act.append({"break": ["break"], "continue": ["continue"], "return": ["return", S("ret")]}.get(exitp, ["expr", ["assign", "r", ["bin", "+", V("r"), S("+done")]]]))
+    act.append({"break": ["break"], "continue": ["continue"], "return": ["return", S("ret")], "return_raises": ["return", ["list", [S("ret"), ["index", ["list", []], N(1)]]]]}.get(exitp, ["expr", ["assign", "r", ["bin", "+", V("r"), S("+done")]]]))
     cl = []
     for k, cname in enumerate(clauses):
         h = [["let", "h%d" % k, N(k)], ["expr", ["assign", "r", ["bin", "+", V("r"), S("+c%d" % k)]]], err_print("h%d" % k, "e%d" % k)]
